@@ -107,7 +107,9 @@ func unvarint(b []byte) (uint64, int) {
 // DecodeMultihash splits an encoded multihash into (code, digest); ok=false when it is not well formed.
 func DecodeMultihash(mh string) (code uint64, digest []byte, ok bool) {
 	raw, err := UnB64(mh)
-	if err != nil {
+	if err != nil || B64(raw) != mh {
+		// not base64url, or another spelling than the canonical one (line breaks, non-zero trailing bits): a hash
+		// field is a string, and strings that merely decode to the same bytes are different field values
 		return 0, nil, false
 	}
 	code, n1 := unvarint(raw)
